@@ -319,6 +319,15 @@ class CompMixin(Interp):
                 if term_s.eq(b) and b.get_id() not in found:
                     found[b.get_id()] = (b, acc)
                     return
+            if z3.is_add(term_s) and term_s.num_args() == 2 and term_s.sort() == z3.IntSort():
+                # binder + constant
+                a0, a1 = term_s.arg(0), term_s.arg(1)
+                for x0, c0 in ((a0, a1), (a1, a0)):
+                    if z3.is_int_value(c0):
+                        for b in binders:
+                            if x0.eq(b) and b.get_id() not in found:
+                                found[b.get_id()] = (b, acc - c0)
+                                return
             if z3.is_app(term_s) and term_s.decl().kind() == z3.Z3_OP_DT_CONSTRUCTOR:
                 srt = term_s.sort()
                 for i in range(term_s.num_args()):
